@@ -243,6 +243,13 @@ theorem step_inv (sem : Nat → List Int → Int) (v : InVal) (A A' : Abs) (c : 
       · simp [step, upd, Ne.symm he, h.obj0buf]
       · intro a' ha'; simp only [step, upd, Ne.symm he, if_false]; exact h.obj0 a' ha'
 
+  | inplaceAttr op t a =>
+    simp only [checkStep, Option.some.injEq] at hc; subst hc
+    exact h
+  | copyAttr t a =>
+    simp only [checkStep, Option.some.injEq] at hc; subst hc
+    exact h
+
 /-- A whole instruction list accepted by the checker preserves the invariant. -/
 theorem exec_inv (sem : Nat → List Int → Int) (v : InVal) (p : List Instr) :
     ∀ (A A' : Abs) (c : St), Inv v A c → check p A = some A' → Inv v A' (exec sem c p) := by
